@@ -74,8 +74,12 @@ Proof. exact C19_old_refuted. Qed.
 Theorem C19_no_write_through_the_shared_token : Generated.shared_write_sites = [].
 Proof. exact no_shared_write_sites. Qed.
 
+Theorem C19_no_package_level_state_written : Generated.pkg_state_write_sites = [].
+Proof. exact no_package_state_writes. Qed.
+
 Print Assumptions C19_interleave_readonly.
 Print Assumptions C19_footprints.
 Print Assumptions C19_schedules.
 Print Assumptions C19_old_code_refuted.
 Print Assumptions C19_no_write_through_the_shared_token.
+Print Assumptions C19_no_package_level_state_written.
